@@ -105,9 +105,15 @@ def run(ck, model_ok):
         for ci, (sizes, L, damage) in enumerate(cases):
             d = os.path.join(root, 'c')
             os.makedirs(d)
-            t, cp, on_disk, _ = build(d, sizes, L, damage)
+            t, cp, on_disk, good_chunks = build(d, sizes, L, damage)
             canon = sl.Canon(t, content_path=cp)
-            got = sl.run_history_impl(t, canon, cp, [('iter', -1)], cp)[0][0]
+            # a third of the cases iterate a stream object that has been used before (handles of some files,
+            # good or bad, are already cached by get_piece / verify_piece)
+            warm = []
+            if ci % 3 == 2:
+                npieces = -(-sum(sizes) // L)
+                warm = [(ck.rng.choice(['get', 'verify']), ck.rng.randrange(npieces)) for _ in range(ck.rng.randint(1, 4))]
+            got = sl.run_history_impl(t, canon, cp, warm + [('iter', -1)], cp)[-1][0]
             shutil.rmtree(d)
             contents = sl.gen_content(sizes)
             ck.case((sizes, L, tuple(sorted(damage.items()))))
@@ -119,19 +125,27 @@ def run(ck, model_ok):
                 viol = ('raises', f'iter_pieces raised {got[1]}')
             else:
                 viol = spec_check(sizes, L, damage, contents, got[1])
-            case = {'sizes': list(sizes), 'L': L, 'damage': {str(k): v for k, v in damage.items()}}
+            case = {'sizes': list(sizes), 'L': L, 'damage': {str(k): v for k, v in damage.items()}, 'warm': [list(o) for o in warm]}
             if viol and not model_ok:
                 ck.fail('oracle', 'new:' + classify(sizes, damage, got, viol), case, 'spec_items', repr(got)[:600], viol[1])
             if model_ok:
-                pend.append((sizes, L, damage, got, viol, m.add(['stream.iter_pieces', sl.disk_sexp(on_disk), sl.files_sexp(sizes), L])))
+                if warm:
+                    ck.count('warm-stream')
+                    req = ['stream.history', sl.disk_sexp(on_disk), sl.files_sexp(sizes), L, list(good_chunks), [list(o) for o in warm] + [['iter', -1]]]
+                else:
+                    req = ['stream.iter_pieces', sl.disk_sexp(on_disk), sl.files_sexp(sizes), L]
+                pend.append((sizes, L, damage, got, viol, m.add(req), bool(warm), warm))
             if ci < 3:
                 ck.sample({**case, 'items': repr(got)[:300]})
         if model_ok:
             res = m.run()
-            for (sizes, L, damage, got, viol, idx) in pend:
-                mr = sl.model_res(res[idx], lambda v: [sl.model_item(x) for x in v])
+            for (sizes, L, damage, got, viol, idx, is_warm, warm) in pend:
+                if is_warm:
+                    mr = sl.model_history(res[idx])[-1][0]
+                else:
+                    mr = sl.model_res(res[idx], lambda v: [sl.model_item(x) for x in v])
                 ck.ties += 1
-                case = {'sizes': list(sizes), 'L': L, 'damage': {str(k): v for k, v in damage.items()}}
+                case = {'sizes': list(sizes), 'L': L, 'damage': {str(k): v for k, v in damage.items()}, 'warm': [list(o) for o in warm]}
                 if mr != got:
                     ck.fail('tie', 'iter_pieces', case, repr(mr)[:600], repr(got)[:600], 'model and implementation disagree')
                 if viol:
@@ -149,7 +163,7 @@ def replay(rp):
     with Scratch() as root:
         t, cp, on_disk, _ = build(root, sizes, L, damage)
         canon = sl.Canon(t, content_path=cp)
-        got = sl.run_history_impl(t, canon, cp, [('iter', -1)], cp)[0][0]
+        got = sl.run_history_impl(t, canon, cp, [tuple(o) for o in c.get('warm', [])] + [('iter', -1)], cp)[-1][0]
     if got[0] == 'err':
         return False, f'iter_pieces raised {got[1]}'
     v = spec_check(sizes, L, damage, sl.gen_content(sizes), got[1])
